@@ -168,7 +168,7 @@ func runC01(c *core.Ctx) error {
 	files := map[string][]byte{}
 	if c.Thorough() {
 		cfg = "SchemaModel_thorough.cfg"
-		files[cfg] = []byte("SPECIFICATION Spec\nCONSTANTS\n  Skeletons = {\"root\",\"prop\",\"item\",\"or\",\"ref\",\"refor\"}\n  Bounds = {2, 3, 4, 6, 9, 10, 14}\n  Kinds = {\"num\",\"str\",\"arr\"}\nINVARIANTS TypeOK NoRulesAccepted Emit\nCHECK_DEADLOCK FALSE\n")
+		files[cfg] = []byte("SPECIFICATION Spec\nCONSTANTS\n  Skeletons = {\"root\",\"prop\",\"item\",\"or\",\"ref\",\"refor\"}\n  Bounds = {2, 3, 4, 6, 9, 10, 14, 17}\n  Kinds = {\"num\",\"str\",\"arr\"}\nINVARIANTS TypeOK NoRulesAccepted Emit\nCHECK_DEADLOCK FALSE\n")
 	}
 	var cases []smCase
 	res, err := tlc.Run(tlc.Opts{Module: "SchemaModel", Cfg: cfg, Workers: 16, Files: files, Timeout: 0, HeapGB: 12, OnLine: func(l string) {
